@@ -16,6 +16,15 @@
 //	C18.content_matches_tag  one writer, eight readers (GetSanitisedDescription
 //	                    and GET through apiHandler): every (definition, tag)
 //	                    pair served is a pair that was written
+//	C18.lockstep_serial the driver holds groups.mu, writer B parks on it, then
+//	                    request A (every update function, direct or through
+//	                    apiHandler) parks behind B; released, the outcome must
+//	                    be that of B then A: no acknowledged update undone, a
+//	                    deleted group does not reappear
+//	(stream loaded)     the group is loaded in the running server (group.Add):
+//	                    same-size and same-mtime rewrites; GET with and without
+//	                    trailing slash must serve the current definition and
+//	                    tag (content_matches_tag), 304 only for the current tag
 //	C18.atomic          a child process killed (strace, SIGKILL on syscall
 //	                    entry) before every file-related system call of one
 //	                    update leaves the complete old or the complete new
@@ -290,6 +299,10 @@ type hist struct {
 	hypoOK   bool // all versions so far had different stamps
 	acks     int
 	stale    int
+	// loaded stream
+	keepMtime bool  // the next version keeps the mtime if its size differs
+	lastSize  int64 // size of the previous version
+	prevTag   string
 }
 
 var baseDir string
@@ -388,7 +401,17 @@ func (h *hist) restamp() (int64, int64) {
 		return 0, 0
 	}
 	if !h.natural {
-		h.clock += []int64{1, 1000, 1000000, 1000000000}[h.r.Intn(4)]
+		if h.keepMtime && fi.Size() != h.lastSize && !h.stamps[fmt.Sprintf("%d-%d", fi.Size(), h.clock)] {
+			// the versions differ in size only (same mtime)
+			h.t.Note("same-mtime-different-size")
+		} else {
+			h.clock += []int64{1, 1000, 1000000, 1000000000}[h.r.Intn(4)]
+		}
+		if fi.Size() == h.lastSize {
+			h.t.Note("same-size-different-mtime")
+		}
+		h.keepMtime = false
+		h.lastSize = fi.Size()
 		tm := time.Unix(0, h.clock)
 		if err := os.Chtimes(h.file, tm, tm); err != nil {
 			panic(err)
@@ -1272,6 +1295,408 @@ func rwRace(t *tr.Trace, r *tr.Rand, versions int) {
 	}
 }
 
+// ---------------------------------------------------------------- lockstep schedules
+
+// parked returns the number of goroutines blocked in sync.Mutex.Lock.
+func parked() int {
+	buf := make([]byte, 1<<20)
+	n := runtime.Stack(buf, true)
+	return strings.Count(string(buf[:n]), "[sync.Mutex.Lock")
+}
+
+// waitParked waits until n goroutines are parked on a mutex, or the request
+// just started has returned (it was answered before any locked section).
+func waitParked(n int, finished func() bool) bool {
+	for i := 0; i < 4000; i++ {
+		if parked() >= n || finished() {
+			return true
+		}
+		time.Sleep(250 * time.Microsecond)
+	}
+	return false
+}
+
+// lsOp is one update request of a lockstep schedule: a direct call of an
+// update function of package group, or (http) a request through apiHandler.
+type lsOp struct {
+	kind string // updesc deldesc upuser deluser setpw setkeys | putgroup delgroup (http)
+	t    int
+	tag  string // direct: the tag argument; http: If-Match
+	inm  string
+	arg  int
+	http bool
+}
+
+func (o lsOp) req() httpReq { return httpReq{kind: o.kind, t: o.t, im: o.tag, inm: o.inm, arg: o.arg} }
+
+// run executes the request on the implementation; "ok" or the error class /
+// HTTP status.
+func (o lsOp) run() string {
+	if o.http {
+		st, _ := serve(o.req())
+		if st == 201 || st == 204 {
+			return "ok"
+		}
+		return fmt.Sprint(st)
+	}
+	name, wild := userName(o.t)
+	var err error
+	switch o.kind {
+	case "updesc":
+		err = group.UpdateDescription(groupName, o.tag, descOf(o.arg))
+	case "deldesc":
+		err = group.DeleteDescription(groupName, o.tag)
+	case "upuser":
+		err = group.UpdateUser(groupName, name, wild, o.tag, userOf(o.arg))
+	case "deluser":
+		err = group.DeleteUser(groupName, name, wild, o.tag)
+	case "setpw":
+		err = group.SetUserPassword(groupName, name, wild, pwOf(o.arg))
+	case "setkeys":
+		err = group.SetKeys(groupName, keysOf(o.arg))
+	}
+	return classify(err)
+}
+
+func (o lsOp) apply(p *proj) {
+	switch o.kind {
+	case "updesc", "putgroup":
+		if !p.exists {
+			*p = proj{exists: true, users: map[int]uproj{}}
+		}
+		p.d = o.arg
+	case "deldesc", "delgroup":
+		*p = proj{users: map[int]uproj{}}
+	case "upuser":
+		u := uproj{perm: o.arg}
+		if old := p.target(o.t); old != nil {
+			u.pw = old.pw
+		}
+		p.setTarget(o.t, u)
+	case "deluser":
+		p.delTarget(o.t)
+	case "setpw":
+		if old := p.target(o.t); old != nil {
+			u := *old
+			u.pw = o.arg
+			p.setTarget(o.t, u)
+		}
+	case "setkeys":
+		p.keys = o.arg
+	}
+}
+
+func (o lsOp) conditional() bool {
+	if o.http {
+		return o.tag != ""
+	}
+	return o.kind != "setpw" && o.kind != "setkeys"
+}
+
+// lockstep: the driver holds the descriptions lock; writer B is started and
+// parks on the lock; then request A is started and parks behind it (whatever
+// A does before taking the lock has happened then); the lock is released: B's
+// locked section completes, then A's.  The outcome must be that of B followed
+// by A (or, should the lock have been handed over in the other order, A
+// followed by B): every acknowledged update is in the final definition, a
+// group deleted with a matching tag stays deleted, and A, if it carried a tag
+// that B's acknowledged update made stale, is refused.
+func (h *hist) lockstep(a, b lsOp) {
+	var order int32
+	var ra, rb string
+	var oa, ob int32
+	var wg sync.WaitGroup
+	var omu sync.Mutex
+	done := func(res *string, ord *int32, v string) {
+		omu.Lock()
+		order++
+		*ord = order
+		*res = v
+		omu.Unlock()
+	}
+	if a.http {
+		h.t.Op("-", "lsread", a.kind, a.t, []byte(a.tag), []byte(a.inm), a.arg)
+	}
+	group.VerifDescriptionsLock()
+	wg.Add(2)
+	go func() { defer wg.Done(); done(&rb, &ob, b.run()) }()
+	fin := func(ord *int32) func() bool {
+		return func() bool { omu.Lock(); defer omu.Unlock(); return *ord != 0 }
+	}
+	okb := waitParked(1, fin(&ob))
+	go func() { defer wg.Done(); done(&ra, &oa, a.run()) }()
+	oka := waitParked(2, fin(&oa))
+	time.Sleep(2 * time.Millisecond)
+	group.VerifDescriptionsUnlock()
+	wg.Wait()
+	if !oka || !okb {
+		h.t.Note("lockstep-writer-did-not-park")
+	}
+	first, second, r1, r2 := b, a, rb, ra
+	if oa < ob {
+		first, second, r1, r2 = a, b, ra, rb
+		h.t.Note("lockstep-A-before-B")
+	}
+	// the final definition under both serial orders of the acknowledged writes
+	serial := func(x lsOp, rx string, y lsOp, ry string) *proj {
+		p := h.exp.clone()
+		if rx == "ok" {
+			x.apply(p)
+		}
+		if ry == "ok" {
+			y.apply(p)
+		}
+		return p
+	}
+	got, _, err := readProj(h.file)
+	h.t.Checked("C18.lockstep_serial")
+	p12 := serial(first, r1, second, r2)
+	if err != nil {
+		h.t.Fail("C18", "lockstep_serial", "definition unreadable after the schedule: "+err.Error())
+		got = p12
+	} else if got.String() != p12.String() {
+		p21 := serial(second, r2, first, r1)
+		if got.String() == p21.String() {
+			first, second, r1, r2 = second, first, r2, r1
+			p12 = p21
+			h.t.Note("lockstep-order-corrected")
+		} else {
+			h.t.Fail("C18", "lockstep_serial", fmt.Sprintf(
+				"B=%s(t=%d,arg=%d)=>%s completed in its locked section between the start of A=%s(t=%d,arg=%d,http=%v)=>%s and A's locked section; the definition is [%s], the acknowledged writes amount to [%s] (before: [%s])",
+				b.kind, b.t, b.arg, rb, a.kind, a.t, a.arg, a.http, ra, got, p12, h.exp))
+			p12 = got
+		}
+	}
+	if ra == "ok" && rb == "ok" && a.conditional() && a.tag != "" && !(a.http && offersTag(a.tag, "*")) {
+		h.t.Checked("C18.exclusive")
+		if oa > ob {
+			h.t.Fail("C18", "exclusive", fmt.Sprintf("A=%s holding tag %q was acknowledged after B=%s had been acknowledged (a tag older than an acknowledged update)", a.kind, a.tag, b.kind))
+		}
+	}
+	h.exp = p12
+	if r1 == "ok" {
+		h.acks++
+	}
+	if r2 == "ok" {
+		h.acks++
+	}
+	var size, mtime int64
+	if r1 == "ok" || r2 == "ok" {
+		size, mtime = h.restamp()
+	}
+	// trace lines in serial order; a version that was replaced at once gets a
+	// dummy stamp (the model needs it only to be different)
+	line := func(o lsOp, res string, last bool) {
+		var sz, mt int64
+		if res == "ok" {
+			sz, mt = 1, 1
+			if last {
+				sz, mt = size, mtime
+			}
+		}
+		if o.http {
+			obs := res
+			if res == "ok" {
+				obs = "2xx"
+			}
+			h.t.Op(obs, "lswrite", o.kind, o.t, []byte(o.tag), []byte(o.inm), o.arg, sz, mt)
+			return
+		}
+		switch o.kind {
+		case "updesc":
+			h.t.Op(res, "updesc", []byte(o.tag), o.arg, sz, mt)
+		case "deldesc":
+			h.t.Op(res, "deldesc", []byte(o.tag))
+		case "upuser":
+			h.t.Op(res, "upuser", o.t, []byte(o.tag), o.arg, sz, mt)
+		case "deluser":
+			h.t.Op(res, "deluser", o.t, []byte(o.tag), sz, mt)
+		case "setpw":
+			h.t.Op(res, "setpw", o.t, o.arg, sz, mt)
+		case "setkeys":
+			h.t.Op(res, "setkeys", o.arg, sz, mt)
+		}
+	}
+	line(first, r1, r2 != "ok")
+	line(second, r2, true)
+	if r1 != "ok" || r2 != "ok" {
+		h.stale++
+	}
+	h.state()
+}
+
+func (h *hist) randLsOp(allowHTTP bool) lsOp {
+	t := h.pickTarget()
+	cur := h.curTag()
+	switch h.r.Pick(3, 2, 3, 2, 2, 3, 2, 1) {
+	case 0:
+		return lsOp{kind: "updesc", tag: h.pickTag(cur), arg: h.r.Intn(100)}
+	case 1:
+		return lsOp{kind: "deldesc", tag: h.pickTag(cur)}
+	case 2:
+		return lsOp{kind: "upuser", t: t, tag: h.pickTag(h.objTag(t, true)), arg: h.r.Intn(4)}
+	case 3:
+		return lsOp{kind: "deluser", t: t, tag: h.pickTag(h.objTag(t, true))}
+	case 4:
+		return lsOp{kind: "setpw", t: t, arg: h.r.Intn(4)}
+	case 5:
+		return lsOp{kind: "setkeys", arg: h.r.Intn(5)}
+	case 6:
+		if allowHTTP {
+			im, inm := h.pickHeader(cur)
+			return lsOp{kind: "putgroup", tag: im, inm: inm, arg: h.r.Intn(100), http: true}
+		}
+		return lsOp{kind: "setkeys", arg: h.r.Intn(5)}
+	default:
+		if allowHTTP {
+			im, inm := h.pickHeader(cur)
+			return lsOp{kind: "delgroup", tag: im, inm: inm, http: true}
+		}
+		return lsOp{kind: "setpw", t: t, arg: h.r.Intn(4)}
+	}
+}
+
+func (h *hist) lockstepOps(n int) {
+	for i := 0; i < n; i++ {
+		if !h.exp.exists {
+			h.updateDescription("", h.r.Intn(100))
+			h.updateUser(h.r.Intn(4), "", h.r.Intn(4))
+		}
+		h.lockstep(h.randLsOp(true), h.randLsOp(false))
+	}
+}
+
+// ---------------------------------------------------------------- a group loaded in the running server
+
+// load is group.Add(name, nil): what a join, GET /group/NAME/.status or the
+// periodic group.Update do; the server then holds the definition in memory.
+func (h *hist) load() {
+	_, err := group.Add(groupName, nil)
+	h.t.Op(classify(err), "load")
+}
+
+// hget is GET of the group through apiHandler; form 0: /.groups/g (the name
+// the server knows: GetDescription may use the in-memory copy), form 1:
+// /.groups/g/ (always reads the file).  Observable: status, ETag, definition.
+func (h *hist) hget(form int, im, inm string) {
+	path := "/galene-api/v0/.groups/" + groupName
+	if form == 1 {
+		path += "/"
+	}
+	r := httptest.NewRequest("GET", path, nil)
+	if im != "" {
+		r.Header["If-Match"] = []string{im}
+	}
+	if inm != "" {
+		r.Header["If-None-Match"] = []string{inm}
+	}
+	r.SetBasicAuth("root", "pw")
+	w := httptest.NewRecorder()
+	webserver.VerifEtagAPIHandler(w, r)
+	etag := w.Header().Get("Etag")
+	dstr := "-"
+	if w.Code == 200 {
+		var body struct {
+			DisplayName string `json:"displayName"`
+		}
+		json.Unmarshal(w.Body.Bytes(), &body)
+		dstr = strings.TrimPrefix(body.DisplayName, "d")
+	}
+	cur := h.curTag()
+	h.t.Checked("C18.content_matches_tag")
+	if w.Code != 404 && etag != cur {
+		h.t.Fail("C18", "content_matches_tag", fmt.Sprintf("GET %s served the tag %s, the definition on disk has %s (an acknowledged update is not visible)", path, etag, cur))
+	}
+	if w.Code == 200 && dstr != fmt.Sprint(h.exp.d) {
+		h.t.Fail("C18", "content_matches_tag", fmt.Sprintf("GET %s served definition d%s with tag %s; the acknowledged writes amount to d%d", path, dstr, etag, h.exp.d))
+	}
+	if inm != "" && im == "" && cur != "" {
+		h.t.Checked("C18.304_iff_current")
+		want := offersTag(inm, cur) || offersTag(inm, "*")
+		if (w.Code == 304) != want {
+			h.t.Fail("C18", "304_iff_current", fmt.Sprintf("GET %s If-None-Match=%q answered %d; the current tag is %s", path, inm, w.Code, cur))
+		}
+	}
+	e := "-"
+	if w.Code != 404 {
+		e = tr.Hex([]byte(etag))
+	}
+	h.t.Op(fmt.Sprintf("%d %s %s", w.Code, e, dstr), "hget", form, []byte(im), []byte(inm))
+}
+
+// sameSizeD: another description number whose file has the same size.
+func sameSizeD(d int, r *tr.Rand) int {
+	for i := 0; i < 20; i++ {
+		e := d + 5*r.Range(-8, 8)
+		if e != d && e >= 10 && e <= 99 && d >= 10 && d <= 99 {
+			return e
+		}
+	}
+	return d
+}
+
+func (h *hist) loadedOps(n int) {
+	h.load()
+	for i := 0; i < n; i++ {
+		cur := h.curTag()
+		t := h.r.Intn(4)
+		switch h.r.Pick(5, 3, 3, 3, 2, 8, 2, 2, 1) {
+		case 0: // same size, other mtime
+			h.prevTag = cur
+			h.updateDescription(cur, sameSizeD(h.exp.d, h.r))
+		case 1: // other size, same mtime
+			h.prevTag = cur
+			h.keepMtime = true
+			h.updateDescription(cur, h.r.Range(10, 99))
+		case 2: // same-size permission change of an existing user
+			h.prevTag = cur
+			if u := h.exp.target(t); u != nil {
+				h.updateUser(t, cur, 1+(u.perm+h.r.Range(0, 1))%3)
+			} else {
+				h.updateUser(t, "", h.r.Range(1, 3))
+			}
+		case 3: // password reset: same size
+			h.prevTag = cur
+			h.setPassword(t, h.r.Range(1, 3))
+		case 4:
+			h.prevTag = cur
+			h.setKeys(h.r.Range(1, 5))
+		case 5:
+			inm := ""
+			switch h.r.Pick(2, 3, 3, 1, 1) {
+			case 1:
+				inm = cur
+			case 2:
+				inm = h.prevTag
+				if inm != "" && inm != cur {
+					h.t.Note("conditional-GET-with-the-previous-tag")
+				}
+			case 3:
+				inm = "*"
+			case 4:
+				inm = h.pickTag(cur)
+			}
+			h.hget(h.r.Intn(2), "", inm)
+			if h.r.Bool() {
+				h.hget(h.r.Intn(2), "", inm)
+			}
+		case 6:
+			h.getUserTag(t)
+		case 7:
+			h.load() // reload, as group.Update does
+		default:
+			h.state()
+		}
+	}
+	h.hget(0, "", h.prevTag)
+	h.hget(1, "", h.prevTag)
+	h.state()
+	// unload
+	if !group.Delete(groupName) && group.Get(groupName) != nil {
+		h.t.Fail("C18", "content_matches_tag", "the loaded group could not be unloaded")
+	}
+}
+
 // ---------------------------------------------------------------- crash points
 
 const crashSyscalls = "openat,write,pwrite64,fsync,fdatasync,close,rename,renameat,renameat2,unlink,unlinkat,ftruncate,truncate,mkdirat,fchmod,fchmodat"
@@ -1581,6 +2006,24 @@ func runDescStore(t *tr.Trace, r *tr.Rand, n int) {
 	crashHistory(t, r, n >= 200)
 	for i := 0; i < 3+n/100; i++ {
 		rwRace(t, r, 400)
+	}
+	for i := 0; i < 6+n/20; i++ {
+		h := newHist(t, r, "lockstep", !r.Chance(1, 15), false)
+		h.seed(randSeed(r))
+		h.lockstepOps(r.Range(8, 14))
+		if h.acks >= 3 {
+			t.Nontrivial(fmt.Sprintf("lockstep/%d/%d/%s", h.acks, h.stale, h.exp))
+		}
+	}
+	for i := 0; i < 6+n/20; i++ {
+		h := newHist(t, r, "loaded", true, false)
+		p := randSeed(r)
+		p.d = r.Range(10, 99)
+		h.seed(p)
+		h.loadedOps(r.Range(25, 45))
+		if h.acks >= 3 {
+			t.Nontrivial(fmt.Sprintf("loaded/%d/%s", h.acks, h.exp))
+		}
 	}
 	for hi := 0; hi < n; hi++ {
 		writable := !r.Chance(1, 12)
